@@ -8,7 +8,6 @@ import (
 	"strings"
 )
 
-func (p *Program) loadExtContracts(dir string) error { return nil }
 
 func writeReplay(prog *Program, e *Engine, o checkOpts, ob *Oblig, dir string) (string, bool) {
 	_ = os.MkdirAll(dir, 0o755)
